@@ -13,6 +13,13 @@ Theorem rollback_order_as_modelled : rollback_order_ok = true.
 Proof. vm_compute. reflexivity. Qed.
 Print Assumptions rollback_order_as_modelled.
 
+(* Each of the four write loops of the rollback (re-create spent/trimmed, delete created keys,
+   restore deleted lockups, delete created lockups) performs its write on EVERY record: no guard,
+   no continue/break (AST of the source, regenerated on every run). *)
+Theorem rollback_writes_unconditional_as_modelled : rollback_writes_ok = true.
+Proof. vm_compute. reflexivity. Qed.
+Print Assumptions rollback_writes_unconditional_as_modelled.
+
 Theorem key_lengths_as_modelled : key_lengths_ok = true.
 Proof. vm_compute. reflexivity. Qed.
 Print Assumptions key_lengths_as_modelled.
@@ -179,6 +186,43 @@ Proof.
 Qed.
 Print Assumptions lockup_undo_of_this_source.
 
+(* ---------------- outputs created AND spent inside one block (tx2 spends an output of tx1) ------- *)
+(* In whatever state the rollback batch of a block is applied: none of the keys the block created
+   is present afterwards — in particular an output the block also spent (it is in the spent record,
+   so the batch first re-creates it) is unspendable after the reorganisation. *)
+Theorem intra_block_output_absent_after_rollback : forall {L} (d : db L) (e : effect L) k,
+  sorted (utxo d) -> In k (created_keys e) -> get k (utxo (rollback d e)) = None.
+Proof. intros L. exact (@created_absent_after_rollback L). Qed.
+Print Assumptions intra_block_output_absent_after_rollback.
+
+(* The ORDER "re-create spent, THEN delete created" is necessary: with the two loops swapped there
+   is a well-formed block (on which [rollback] is exact) after whose rollback an output that never
+   existed before the block and did not exist after it is in the UTXO set. *)
+Theorem rollback_delete_before_restore_refuted :
+  exists (d : db val) e k, db_ok d /\ wf_effect d e /\ rollback (apply d e) e = d /\
+    get k (utxo d) = None /\ get k (utxo (apply d e)) = None /\
+    get k (utxo (rollback_delete_first (apply d e) e)) <> None.
+Proof. exact rollback_delete_first_refuted_lemma. Qed.
+Print Assumptions rollback_delete_before_restore_refuted.
+
+(* The delete of a created key must be UNCONDITIONAL: skipping it when the key is not in the
+   database (the re-creating Put sits in the same batch) resurrects the same kind of output. *)
+Theorem rollback_delete_only_if_present_refuted :
+  exists (d : db val) e k, db_ok d /\ wf_effect d e /\ rollback (apply d e) e = d /\
+    get k (utxo d) = None /\ get k (utxo (apply d e)) = None /\
+    get k (utxo (rollback_skip_absent (apply d e) e)) <> None.
+Proof. exact rollback_skip_absent_refuted_lemma. Qed.
+Print Assumptions rollback_delete_only_if_present_refuted.
+
+(* Both wrong rollbacks are EXACT on every well-formed block in which no spent/trimmed output was
+   created by the block itself: only blocks with an intra-block chain of Qi spends distinguish
+   them from the source's rollback (the shape the harness therefore generates on every branch). *)
+Theorem wrong_rollbacks_differ_only_on_intra_block_spends : forall {L} (d : db L) (e : effect L),
+  db_ok d -> wf_effect d e -> no_intra_spend e ->
+  rollback_delete_first (apply d e) e = d /\ rollback_skip_absent (apply d e) e = d.
+Proof. intros L. exact (@wrong_rollbacks_exact_without_intra_spend L). Qed.
+Print Assumptions wrong_rollbacks_differ_only_on_intra_block_spends.
+
 (* ---------------- non-vacuity ---------------- *)
 Definition nv_anc : db val :=
   mkDb [([1], [10]); ([2], [20]); ([3], [30])] [([9;1], [5])] [([0], [100]); ([1], [101])] [101].
@@ -206,6 +250,20 @@ Example reorg_nonvacuous :
   = mkDb [([1], [10]); ([3], [30]); ([5], [50])] [([9;1], [5])]
          [([0], [100]); ([1], [101]); ([2], [202])] [202].
 Proof. vm_compute. split; reflexivity. Qed.
+
+(* a block with a chain tx1 -> tx2 -> tx3 (outputs [7] and [9] created and spent inside the block)
+   plus a trimmed old output: well formed, and its rollback is exact *)
+Example intra_block_chain_nonvacuous :
+  db_ok ic_db /\ wf_effect ic_db ic_eff
+  /\ apply ic_db ic_eff = mkDb [([2], [20]); ([6], [60]); ([8], [80])] [] [([4], [44]); ([5], [55])] [55]
+  /\ rollback (apply ic_db ic_eff) ic_eff = ic_db
+  /\ no_intra_spend nv_b2 /\ ~ no_intra_spend ic_eff.
+Proof.
+  destruct ic_wf as [A B]. destruct intra_chain_facts as [C D].
+  split; [exact A|]. split; [exact B|]. split; [exact C|]. split; [exact D|]. split.
+  - intros k H. cbn in H. destruct H as [<-|[]]. cbn. intros [H|[]]. discriminate H.
+  - intros H. apply (H [7]); cbn; tauto.
+Qed.
 
 Example addnewlock_nonvacuous :
   (* create, top up with the same delegate, top up with another one: undo record of the last
